@@ -473,3 +473,94 @@ Proof.
     + short_of 40%nat.
 Qed.
 
+
+(* ---------- type 24 ---------- *)
+Lemma reads_part_b_tail c (ship : option ship_type) (vendor_id : list N) :
+  reads (model_serial <- peek_p (parse_6bit_ascii c 24) ;;
+         unit_model_code <- take 4 ;;
+         serial_number <- take 20 ;;
+         callsign <- parse_6bit_ascii c 42 ;;
+         dimension_to_bow <- take 9 ;;
+         dimension_to_stern <- take 9 ;;
+         dimension_to_port <- take 6 ;;
+         dimension_to_starboard <- take 6 ;;
+         _ <- take 6 ;;
+         ret (PartB ship vendor_id model_serial unit_model_code serial_number callsign
+                    dimension_to_bow dimension_to_stern dimension_to_port dimension_to_starboard))%P
+        102
+        (fun bs p => PartB ship vendor_id (text_at bs p 4)
+                           (sl bs p 4) (sl bs (4 + p) 20) (text_at bs (24 + p) 7)
+                           (sl bs (66 + p) 9) (sl bs (75 + p) 9) (sl bs (84 + p) 6) (sl bs (90 + p) 6)).
+Proof.
+  eapply reads_ext; [eapply reads_bind_peek; [rd | intro; rd | cbn; lia] | reflexivity | intros; reflexivity].
+Qed.
+
+Lemma reads_part_b c :
+  reads (ship <- pmap ship_type_parse (take 8) ;;
+         vendor_id <- parse_6bit_ascii c 18 ;;
+         model_serial <- peek_p (parse_6bit_ascii c 24) ;;
+         unit_model_code <- take 4 ;;
+         serial_number <- take 20 ;;
+         callsign <- parse_6bit_ascii c 42 ;;
+         dimension_to_bow <- take 9 ;;
+         dimension_to_stern <- take 9 ;;
+         dimension_to_port <- take 6 ;;
+         dimension_to_starboard <- take 6 ;;
+         _ <- take 6 ;;
+         ret (PartB ship vendor_id model_serial unit_model_code serial_number callsign
+                    dimension_to_bow dimension_to_stern dimension_to_port dimension_to_starboard))%P
+        128
+        (fun bs p => PartB (ship_type_parse (sl bs p 8)) (text_at bs (8 + p) 3) (text_at bs (26 + p) 4)
+                           (sl bs (26 + p) 4) (sl bs (30 + p) 20) (text_at bs (50 + p) 7)
+                           (sl bs (92 + p) 9) (sl bs (101 + p) 9) (sl bs (110 + p) 6) (sl bs (116 + p) 6)).
+Proof.
+  eapply reads_ext;
+    [eapply reads_bind; [rd|intro ship]; eapply reads_bind; [rd|intro vendor]; apply reads_part_b_tail
+    | reflexivity | intros; reflexivity].
+Qed.
+
+Theorem layout_static_data c bs :
+  if (40 <=? length bs)%nat then
+    if sl bs 38 2 =? 0 then
+      if (160 <=? length bs)%nat
+      then parse_static_data_report c bs 0%nat = Ok (static_data_of bs, (Nat.min (length bs - 160) 7 + 160)%nat)
+      else parse_static_data_report c bs 0%nat = Err EError
+    else if sl bs 38 2 =? 1 then
+      if (168 <=? length bs)%nat
+      then parse_static_data_report c bs 0%nat = Ok (static_data_of bs, 168%nat)
+      else parse_static_data_report c bs 0%nat = Err EError
+    else parse_static_data_report c bs 0%nat = Ok (static_data_of bs, 40%nat)
+  else parse_static_data_report c bs 0%nat = Err EError.
+Proof.
+  unfold parse_static_data_report, parse_message_part.
+  destruct (Nat.leb_spec 40 (length bs)) as [Hl|Hl].
+  2:{ match goal with |- ?m bs 0%nat = _ =>
+        assert (S : fails_short m 40) by (eapply fails_short_ext; [fs | reflexivity]); apply S; lia end. }
+  pose proof (sl_lt bs 38 2) as Hlt. change (2 ^ N.of_nat 2) with 4 in Hlt.
+  assert (Hv : sl bs 38 2 = 0 \/ sl bs 38 2 = 1 \/ sl bs 38 2 = 2 \/ sl bs 38 2 = 3) by lia.
+  unfold static_data_of, static_data_part_of.
+  destruct Hv as [Hv|[Hv|[Hv|Hv]]]; rewrite Hv; cbn [N.eqb Pos.eqb].
+  - (* part A *)
+    destruct (Nat.leb_spec 160 (length bs)) as [H1|H1].
+    + to_tail 40%nat. rewrite Hv. cbn [N.eqb Pos.eqb].
+      rewrite !bind_assoc_pt. unfold bind at 1.
+      rewrite (reads_ok _ _ _ bs 40%nat (reads_parse_6bit_ascii c 120 ltac:(cbn; lia))) by (cbn; lia).
+      cbn [Nat.div Nat.mul Nat.add fst Nat.divmod].
+      change (6 * (120 / 6) + 40)%nat with 160%nat.
+      rewrite bind_assoc_pt. unfold bind at 1, remaining.
+      rewrite bind_assoc_pt. unfold bind at 1.
+      rewrite (reads_ok _ _ _ bs 160%nat (reads_take (Nat.min (length bs - 160) 7))) by lia.
+      reflexivity.
+    + to_tail 40%nat. rewrite Hv. cbn [N.eqb Pos.eqb].
+      rewrite !bind_assoc_pt. unfold bind at 1.
+      rewrite (reads_short _ _ _ bs 40%nat (reads_parse_6bit_ascii c 120 ltac:(cbn; lia))) by (cbn; lia).
+      reflexivity.
+  - (* part B *)
+    destruct (Nat.leb_spec 168 (length bs)) as [H1|H1].
+    + to_tail 40%nat. rewrite Hv. cbn [N.eqb Pos.eqb]. unfold bind at 1.
+      rewrite (reads_ok _ _ _ bs 40%nat (reads_part_b c)) by lia. reflexivity.
+    + to_tail 40%nat. rewrite Hv. cbn [N.eqb Pos.eqb]. unfold bind at 1.
+      rewrite (reads_short _ _ _ bs 40%nat (reads_part_b c)) by lia. reflexivity.
+  - to_tail 40%nat. rewrite Hv. reflexivity.
+  - to_tail 40%nat. rewrite Hv. reflexivity.
+Qed.
